@@ -111,6 +111,9 @@ def run(spec, rec):
         for ext, mon in ((".fs", "file-roundtrip"), (".fs.gz", "gz-roundtrip")):
             tags = {"gz": ext.endswith(".gz"), "values": vk, "ndim": ndim}
             path = os.path.join(tmp, "rt%d_%d%s" % (spec["b"], ci, ext))
+            if ci % 3 == 0:
+                # the file name is reused: another spectrum was written to it before (writing replaces, it does not append)
+                Spectrum(np.arange(6.0).reshape(2, 3), mask_corners=False, pop_ids=["old a", "old b"]).to_file(path, comment_lines=["stale"])
             ok, _ = rec.noraise("to_file-returns", lambda: fs.to_file(path, precision=prec, comment_lines=comments),
                                 site="Spectrum.to_file", tags=tags)
             if not ok:
